@@ -4187,4 +4187,32 @@ pub mod verif_hooks_outbound {
 			res
 		}
 	}
+
+	/// `OutboundPayments::pay_route_internal` for a payment that was added with
+	/// `add_new_pending_payment`: the final hop's onion carries `keysend_preimage` as given, whether
+	/// or not it hashes to `payment_hash`.
+	pub(in crate::ln) fn pay_route_raw<NS: NodeSigner, F>(
+		outbound: &OutboundPayments, route: &Route, payment_hash: PaymentHash,
+		recipient_onion: &RecipientOnionFields, keysend_preimage: Option<PaymentPreimage>,
+		payment_id: PaymentId, onion_session_privs: &Vec<[u8; 32]>, node_signer: &NS,
+		best_block_height: u32, send_payment_along_path: &F,
+	) -> Result<(), PaymentSendFailure>
+	where
+		F: Fn(SendAlongPathArgs) -> Result<(), APIError>,
+	{
+		outbound.pay_route_internal(
+			route,
+			payment_hash,
+			recipient_onion,
+			keysend_preimage,
+			None,
+			None,
+			payment_id,
+			onion_session_privs,
+			false,
+			node_signer,
+			best_block_height,
+			send_payment_along_path,
+		)
+	}
 }
